@@ -458,7 +458,9 @@ func (p *prover) lenBounds(X ssa.Value, b *ssa.BasicBlock) (int64, int64) {
 	}
 	// regexp knowledge
 	if call, ok := root.(*ssa.Call); ok {
-		if f := call.Call.StaticCallee(); f != nil && isFindSubmatch(origin(f).String()) && lo >= 1 {
+		// `parts != nil` is the same test as `len(parts) != 0` for a sub-match result
+		nonNil := p.nonNilFact(root, b)
+		if f := call.Call.StaticCallee(); f != nil && isFindSubmatch(origin(f).String()) && (lo >= 1 || nonNil) {
 			if re := p.c.regexpOf(call.Call.Args[0]); re != nil {
 				n := int64(re.MaxCap() + 1)
 				return n, n
@@ -492,7 +494,7 @@ func (p *prover) matchedMinLen(root ssa.Value, b *ssa.BasicBlock) int64 {
 			// need fact len(call)==0 false at b
 			q := *p
 			lo, _ := (&q).lenBoundsNoRegexp(call, b)
-			if lo >= 1 {
+			if lo >= 1 || p.nonNilFact(call, b) {
 				if re := p.c.regexpOf(call.Call.Args[0]); re != nil {
 					return int64(minLen(re))
 				}
@@ -961,8 +963,8 @@ func (p *prover) prove(s site) (bool, string) {
 		}
 		// direct fact idx < len(X)
 		for _, f := range p.facts(b) {
-			if f.truth && f.cond.Op == token.LSS && f.cond.X == v {
-				if l := p.evalNoFacts(f.cond.Y); l.ok && l.base != nil && l.lo == 0 && l.hi == 0 && e.nonneg {
+			if bound := ltBound(f, v); bound != nil {
+				if l := p.evalNoFacts(bound); l.ok && l.base != nil && l.lo == 0 && l.hi == 0 && e.nonneg {
 					if l.base == root {
 						return true, ""
 					}
@@ -1124,4 +1126,72 @@ var _ = strings.HasPrefix
 // isFindSubmatch: the two sibling forms (bytes / string subject) with the same length contract.
 func isFindSubmatch(name string) bool {
 	return name == "(*regexp.Regexp).FindSubmatch" || name == "(*regexp.Regexp).FindStringSubmatch"
+}
+
+// ltBound: if fact f implies v < B for some value B, returns B. Forms: `v < B`, `B > v` (either polarity through
+// negation), and `v != B` for a counter v = phi(0, v+1) — by induction 0 <= v <= B at the loop head when B is a
+// length, so v != B gives v < B.
+func ltBound(f fact, v ssa.Value) ssa.Value {
+	op := f.cond.Op
+	if !f.truth {
+		op = negate(op)
+	}
+	switch {
+	case op == token.LSS && f.cond.X == v:
+		return f.cond.Y
+	case op == token.GTR && f.cond.Y == v:
+		return f.cond.X
+	case op == token.NEQ && isZeroUnitCounter(v):
+		var other ssa.Value
+		switch {
+		case f.cond.X == v:
+			other = f.cond.Y
+		case f.cond.Y == v:
+			other = f.cond.X
+		default:
+			return nil
+		}
+		// the bound must be a length computed outside the loop (invariant): a len() call not in the counter's loop
+		if c, ok := other.(*ssa.Call); ok {
+			if bi, ok := c.Call.Value.(*ssa.Builtin); ok && bi.Name() == "len" {
+				ph := v.(*ssa.Phi)
+				if c.Block() != ph.Block() && c.Block().Dominates(ph.Block()) {
+					return other
+				}
+			}
+		}
+	}
+	return nil
+}
+
+// isZeroUnitCounter: v = phi(0, v+1).
+func isZeroUnitCounter(v ssa.Value) bool {
+	ph, ok := v.(*ssa.Phi)
+	if !ok || len(ph.Edges) != 2 {
+		return false
+	}
+	for i := 0; i < 2; i++ {
+		c0, okc := constInt(ph.Edges[i])
+		bo, okb := ph.Edges[1-i].(*ssa.BinOp)
+		if okc && c0 == 0 && okb && bo.Op == token.ADD && bo.X == ssa.Value(ph) {
+			if st, ok := constInt(bo.Y); ok && st == 1 {
+				return true
+			}
+		}
+	}
+	return false
+}
+
+// nonNilFact: a dominating branch established v != nil.
+func (p *prover) nonNilFact(v ssa.Value, b *ssa.BasicBlock) bool {
+	for _, f := range p.facts(b) {
+		op := f.cond.Op
+		if !f.truth {
+			op = negate(op)
+		}
+		if op == token.NEQ && (f.cond.X == v && isNilConst(f.cond.Y) || f.cond.Y == v && isNilConst(f.cond.X)) {
+			return true
+		}
+	}
+	return false
 }
